@@ -94,6 +94,24 @@ def gen_scenarios(v, tier, seed, rng):
         sc["threads"] = 4
         sc["np"] = 2
         scen.append(sc)
+    # refused allocations (the kernel refuses the mapping of a piece buffer): 2 threads, mapped pieces only
+    r = run_tlc("GenPieceStore", "PieceStore_edgesNoMem.cfg", workers=1, timeout=900)
+    require_ok(r, "edge dump PieceStore_edgesNoMem.cfg")
+    g4 = Graph.from_result(r, is_init)
+    os.unlink(r.outfile)
+    walks4, unc = g4.covering_walks(rng, maxlen=40)
+    if unc or not g4.inits:
+        raise Internal("edge dump PieceStore_edgesNoMem.cfg: %d edges unreachable" % unc)
+    v.cov["edge_graph_nomem"] = {"states": len(g4.states), "edges": g4.nedges, "covering_walks": len(walks4)}
+    if tier == "quick" and len(walks4) > 1500:
+        rng.shuffle(walks4)
+        walks4.sort(key=lambda w: 0 if any(lab.get("a") == "AddCrit" for lab, _ in w[1]) else 1)
+        walks4 = walks4[:1500]
+    for w in walks4:
+        sc = g4.scenario(w, "")
+        sc["threads"] = 2
+        sc["geom"] = "mmap"
+        scen.append(sc)
     # simulation: 4 threads, 3 pieces
     n = 1500 if tier == "quick" else 20000
     r = run_tlc("GenPieceStore", "PieceStore_sim.cfg", workers=1, simulate=n, depth=40, seed=seed, timeout=1800)
@@ -109,7 +127,7 @@ def gen_scenarios(v, tier, seed, rng):
         raise Internal("simulation produced no behaviour")
     for i, sc in enumerate(scen):
         sc["id"] = i
-        sc["geom"] = "mmap" if i % 2 else "heap"
+        sc.setdefault("geom", "mmap" if i % 2 else "heap")
     return scen
 
 
